@@ -144,7 +144,7 @@ def skeleton(src, q):
             hos, hsrv, hprc = oss[(a[0] + a[1]) % len(oss)], list(services), list(procs[:1])
         cfg = {u.HOST_OS: hos, u.HOST_SERVICES: hsrv, u.HOST_PROCESSES: hprc}
         deny = {}
-        if 'hostfw' in sym and a == addrs[-1]:
+        if 'hostfw' in sym and a == (tuple(q['hostfw_on']) if q.get('hostfw_on') else addrs[-1]):
             if flag(src, nm + '_has_fw'):
                 fwd = {}
                 for g in addrs:
@@ -354,11 +354,12 @@ def scenario_obligations(sc, exp):
         obl.append(('host_config_%d_%d' % a, z3.BoolVal(bool(cfg_ok))))
         obl.append(('host_value_%d_%d' % a, _eqv(h.value, d['value'])))
         deny_ok = True
-        for g in exp['addrs']:
-            for s in services:
-                want = s not in d['deny'].get(g, [])
-                if bool(h.traffic_permitted(g, s)) != want:
-                    deny_ok = False
+        for _pass in (1, 2):       # asking twice must give the same answers
+            for g in exp['addrs']:
+                for s in services:
+                    want = s not in d['deny'].get(g, [])
+                    if bool(h.traffic_permitted(g, s)) != want:
+                        deny_ok = False
         obl.append(('host_firewall_denies_%d_%d' % a, z3.BoolVal(deny_ok)))
     obl.append(('step_limit', _eqv(sc.step_limit, exp['limit'])))
     return obl
